@@ -359,6 +359,96 @@ SUBS = Harness(
 HARNESSES.append(SUBS)
 
 
+# ------------------------------------------------------------------------------ K-merged
+def merged_params(tier):
+    return [P("how", 0, 2), P("kind", 0, 1), P("later", 0, 1)]
+
+
+@guard
+def merged_fn(a, tier):
+    """One listener over TWO channels (a context's resource_added and an ordinary signal); the context goes away while the listener stays."""
+    from asphalt.core import Context
+
+    how, kind, later = pick(a["how"], 3), pick(a["kind"], 2), pick(a["later"], 2)
+    obj = [Base, Sized][kind]()
+    got, got_other, problems = [], [], []
+
+    async def main():
+        async with Context() as root, anyio.create_task_group() as tg:
+            child = Context()
+            await child.__aenter__()
+
+            async def merged(*, task_status):
+                async with stream_events([child.resource_added, obj.a]) as stream:
+                    task_status.started()
+                    async for ev in stream:
+                        got.append(ev)
+
+            async def other(*, task_status):
+                async with obj.a.stream_events() as stream:
+                    task_status.started()
+                    async for ev in stream:
+                        got_other.append(ev)
+
+            await tg.start(merged)
+            if not later:
+                await tg.start(other)
+            child.add_resource(object(), "x", [EA])
+            await anyio.wait_all_tasks_blocked()
+            try:
+                if how == 0:
+                    await child.__aexit__(None, None, None)
+                elif how == 1:
+                    await child.__aexit__(ValueError, ValueError("block failed"), None)
+                else:
+                    child.add_teardown_callback(lambda: (_ for _ in ()).throw(RuntimeError("teardown failed")))
+                    try:
+                        await child.__aexit__(None, None, None)
+                    except BaseException:  # noqa
+                        pass
+            except BaseException as e:  # noqa
+                problems.append(("context-exit-raised", repr(e)))
+            if later:
+                await tg.start(other)
+            sent = []
+            for _ in range(2):
+                ev = EA()
+                try:
+                    obj.a.dispatch(ev)
+                    sent.append(ev)
+                except Exception as e:  # noqa
+                    problems.append((f"dispatch-on-the-other-channel-raised:{type(e).__name__}", repr(e)))
+                await anyio.wait_all_tasks_blocked()
+            if [e for e in got if isinstance(e, EA)] != sent or got_other != sent:
+                problems.append(("event-of-the-other-channel-not-delivered", f"merged listener got {len(got)} events, plain listener {len(got_other)}, dispatched {len(sent)}"))
+            tg.cancel_scope.cancel()
+
+    _, exc, _k = run(main)
+    summary = {"context_left_by": ["clean exit", "exception", "failing teardown callback"][how], "owner": ["plain class", "falsy instances"][kind],
+               "plain_listener_subscribed": "after the context was closed" if later else "before"}
+    if exc is not None:
+        return FAIL(f"merged:raised:{type(exc).__name__}", repr(exc), summary)
+    if problems:
+        return FAIL(f"merged:{problems[0][0]}", problems[0][1], summary)
+    return OK(summary, True)
+
+
+MERGED = Harness(
+    prop="C11",
+    name="K-merged",
+    fn=merged_fn,
+    params=merged_params,
+    cube=lambda tier: 0,
+    title="a listener merged over a context's resource_added signal and another signal, while that context is closed",
+    bound_text=lambda tier: "stream_events([child.resource_added, obj.a]); the child context is left cleanly / with an exception / with a failing teardown callback while the listener stays "
+    "subscribed; a plain listener of obj.a subscribed before / after; then two obj.a events",
+    oracle="dispatching on obj.a does not raise and both listeners get both events: what happens to one channel leaves the other untouched",
+    outside="-",
+    stubs=STUBS_COMMON,
+)
+HARNESSES.append(MERGED)
+
+
 # ------------------------------------------------------------------------------ G-reuse
 def reuse_params(tier):
     return [P("kind", 0, 1), P("touch1", 0, 1)]
